@@ -81,7 +81,8 @@ ASSUMPTIONS = [
     'the precondition for judging later calls on the same objects, not a clause of the statement',
 ]
 TOL = 1e-9
-TOLERANCES = {'design range/mean': TOL, 'spm projection': TOL, 'mne times': 1e-9,
+TOLERANCES = {'design range/mean': TOL, 'spm projection': TOL, 'mne times vs epochs.times': 0.0,
+              'mne times vs tmin + k/sfreq': 1e-9,
               'mne data (object)': 0.0, 'mne data (fif, float32)': '1e-6 of the largest value', 'meadows values': 0.0}
 BOUNDS = {
     'quick': {'bids_spellings': ['plain', 'mixed'], 'meadows_n_stim': [3, 4], 'json_layout_len': 3,
@@ -248,15 +249,23 @@ def run_shard(shard, ctx):
     elif part == 'mne':
         with _scratch() as root:
             ne, nc = shard['n_epochs'], shard['n_channel']
+            # every shape x every event-code vector; the timing menu is dealt out cyclically (quick:
+            # 2 timings per (shape, codes), thorough: 4), so that every shard sees every timing
+            per = 4 if ctx.tier == 'thorough' else 2
+            k = 3 * nc + ne
             for nt in b['mne_dims']:
                 for codes in itertools.product((11, 12, 13), repeat=ne):
-                    for sfreq, tmin in ((20.0, 0.0), (100.0, -0.02)):
+                    for _ in range(per):
+                        sfreq, first = MNE_TIMING[k % len(MNE_TIMING)]
+                        k += 1
                         run_case({'part': 'mne', 'shape': [ne, nc, nt], 'codes': list(codes),
-                                  'sfreq': sfreq, 'tmin': tmin, 'via': 'object'}, ctx, root)
+                                  'sfreq': sfreq, 'tmin': first / sfreq, 'via': 'object'}, ctx, root)
                 for fname in ('sub-01_run-02_task-abc_epo.fif', 'plain-epo.fif'):
+                    sfreq, first = MNE_TIMING[(k + 5) % len(MNE_TIMING)]
+                    k += 1
                     run_case({'part': 'mne', 'shape': [ne, nc, nt],
                               'codes': [(11, 13, 12, 11)[i % 4] for i in range(ne)],
-                              'sfreq': 20.0, 'tmin': -0.1, 'via': 'fif', 'fname': fname}, ctx, root)
+                              'sfreq': sfreq, 'tmin': first / sfreq, 'via': 'fif', 'fname': fname}, ctx, root)
     elif part == 'design':
         grid = b['design_grid']
         for assign in _design_assignments(len(grid), shard['n_cond']):
@@ -772,16 +781,24 @@ def _meadows_cases(shard, b, tier):
                     scale = MEADOWS_SCALES[(k + tidx + sum(order)) % 3] if tier == 'thorough' or tidx == 12 else 1.0
                     yield dict(base, names=names, participant=participant, task_index=tidx, scale=scale)
         elif shape == 'Mp1t':
+            # the stimuli_* and the rdmutv_* variables are two groups paired by participant name:
+            # each group is written in its own order (every pair of orders for n_stim == 3 and in
+            # the thorough tier; same and reversed order otherwise), block-wise and interleaved
+            full = tier == 'thorough' or n_stim == 3
             for n_p in (1, 2, 3):
                 for porder in itertools.permutations(range(n_p)):
-                    variants = [(False, 'png', 'arrangement')]
+                    uorders = list(itertools.permutations(range(n_p))) if full else \
+                        [tuple(range(n_p)), tuple(range(n_p))[::-1]][:max(1, min(2, n_p))]
+                    variants = [(inter, 'png', 'arrangement', uo) for uo in uorders
+                                for inter in ((False, True) if full else (False,))]
                     if tier == 'thorough' or list(porder) == sorted(porder):
-                        variants.append((True, 'ragged', 'ma1'))
-                        variants += [(k % 2 == 1, ns, 'arrangement')
+                        rev = tuple(range(n_p))[::-1]
+                        variants.append((True, 'ragged', 'ma1', rev))
+                        variants += [(k % 2 == 1, ns, 'arrangement', rev)
                                      for k, ns in enumerate(MAT_NAME_SETS) if ns.startswith('prefix')]
-                    for inter, names, tname in variants:
+                    for inter, names, tname, uorder in variants:
                         yield dict(base, names=names, participants=[MEADOWS_PARTICIPANTS[i] for i in porder],
-                                   interleaved=inter, task_name=tname)
+                                   interleaved=inter, task_name=tname, utv_order=list(uorder))
         else:
             for layout in _json_layouts(b['json_layout_len']):
                 for names in sorted(JSON_NAMES):
@@ -834,7 +851,7 @@ def _meadows_case(case, ctx, root):
         fname = ref.meadows_filename('1pMt', 'twoMaTasks', 1, 'tree', 'json',
                                      participant=case['participant'])
         fpath = os.path.join(root, fname)
-        ref.write_json_tree(fpath, tasks)
+        ref.write_json_tree(fpath, tasks, rdm_first=(len(case['layout']) + sum(order)) % 2 == 1)
     else:
         base_files = MAT_NAMES[case['names']][:n]
         file_files = [base_files[i] for i in order]
@@ -856,7 +873,8 @@ def _meadows_case(case, ctx, root):
                 expected.append(('participant', p, u, {'task': case['task_name']}))
             fname = ref.meadows_filename('Mp1t', 'myExp', 2, '1D', 'mat', task_name=case['task_name'])
             fpath = os.path.join(root, fname)
-            ref.write_mat_multi(fpath, case['participants'], file_files, utvs, case['interleaved'])
+            ref.write_mat_multi(fpath, case['participants'], file_files, utvs, case['interleaved'],
+                                case.get('utv_order'))
     try:
         with ctx.guard(sigp, case):
             with open(fpath, 'rb') as fh:
@@ -933,6 +951,10 @@ def _meadows_case(case, ctx, root):
 
 # ---------------------------------------------------------------------------------- MNE
 CH_NAMES = ['A1', 'X32', 'Cz', 'MEG 0113']
+# (sampling rate, first sample): tmin = first / sfreq.  20 / 100 / 1000 Hz put every sample on the
+# millisecond grid, 128 / 256 / 512 / 600 Hz do not; first = 0 and a negative start
+MNE_TIMING = [(sf, first) for sf in (20.0, 100.0, 128.0, 256.0, 512.0, 600.0, 1000.0)
+              for first in (0, -(int(sf) // 10 + 1))]
 
 
 def _mne_case(case, ctx, root):
@@ -1000,8 +1022,22 @@ def _mne_case(case, ctx, root):
                 ctx.fail(sigp + '|channel-names', case, 'name %r, channels %r' % (ch, names))
             tm = ds.time_descriptors.get('time')
             want_t = ref.epoch_times(nt, case['sfreq'], case['tmin'])
-            if tm is None or not allclose(np.asarray(tm, dtype=float), want_t, 1e-9):
+            if tm is None or np.shape(tm) != (nt,):
                 ctx.fail(sigp + '|times', case, 'time %r, expected %r' % (tm, want_t))
+            else:
+                tm = np.asarray(tm, dtype=float)
+                # the time descriptor is a copy of the epochs' sample times: bit for bit
+                src = np.asarray(epochs.times if via == 'object' else
+                                 mne.read_epochs(fpath, preload=False, verbose='error').times, dtype=float)
+                ctx.dev('mne times', float(np.abs(tm - src).max()) if src.shape == tm.shape else float('inf'))
+                if not np.array_equal(tm, src):
+                    ctx.fail(sigp + '|times-not-the-epochs-times', case,
+                             'sfreq %r, tmin %r: time %r, epochs.times %r' % (case['sfreq'], case['tmin'],
+                                                                              tm.tolist(), src.tolist()))
+                # and, independently of mne, tmin + k / sfreq (within float rounding; FIF stores sfreq
+                # and the first sample, not the times)
+                elif not allclose(tm, want_t, 1e-9):
+                    ctx.fail(sigp + '|times', case, 'time %r, expected %r' % (tm.tolist(), want_t))
             ctx.outcome(('mne', tuple(case['shape']), tuple(case['codes'])))
     finally:
         if fpath and os.path.exists(fpath):
